@@ -1277,7 +1277,8 @@ MANIFEST_ENTRY = {
                  'composition onto a caller-supplied non-zero `out` buffer, in one and two steps)',
     'text': ('PARTIAL.  PROPERTY THEOREMS (all inputs): hex_ring(k) (generated from the source loops) has 6k pairwise distinct cells '
              'with q+r+s=0 at cube distance k, rings are mutually disjoint, and by induction over the generated id arithmetic R rings '
-             'give 1+3R(R+1) segments before exclusion; for every pair of distinct lattice cells, D>0, gap>0 and both orientations the '
+             'give 1+3R(R+1) segments before exclusion, and for every exclusion list (repeats / non-existent ids allowed) the model aperture '
+             'keeps exactly the non-excluded ids of 0..3R(R+1), kept + excluded-existing = 1+3R(R+1) (segments_after_exclusion); for every pair of distinct lattice cells, D>0, gap>0 and both orientations the '
              'two closed slab hexagons (centres from the generated hex_to_xy) have no common point; apothem = D/2, clear gap = requested '
              'separation; the convex hull of the six polygon vertices handed to qhull lies inside that slab hexagon (convexity proved), '
              'so with qhull membership trusted the rasterised masks are disjoint; the generated window clamp yields 0<=lo<=hi<=n and, '
@@ -1285,18 +1286,30 @@ MANIFEST_ENTRY = {
              'segment centre for both parities; the model of compose_opd (accumulate tile*mask through windows) is linear in the '
              'coefficients, confined to the segment, and a unit piston gives the indicator; rectangle/ellipse are their inequalities, all '
              'primitives grow with their size parameters and have the stated symmetries; keystone sectors (no-wrap branch) of one ring, '
-             'of different rings and the central disc are pairwise disjoint for every positive gap.  TRANSLATION IDENTITIES (syntactic or '
+             'of different rings and the central disc are pairwise disjoint for every positive gap; the keystone angular mask WITH its two '
+             'wrap-around branches (translated from the source if/elif) holds exactly when t or t+2pi lies in (lo, hi) for every t in '
+             '[-pi, pi] and every interval (keystone_wrap_iff), consecutive keystones round the circle share no angle also through the '
+             'branch cut (keystone_wrap_disjoint), and with the arc start in [-pi, pi] (what the translated while loops establish: '
+             'gen_keystone_start) and an arc of at most a turn the mask is membership modulo 2pi for ANY number of turns '
+             '(keystone_wrap_complete); the translated first-claim step of the hexagonal construction loop (local_mask &= ~mask[window]; '
+             'mask[window] |= local_mask), iterated over ANY list of polygon masks, stores at most one owner per sample, leaves the '
+             'aperture mask equal to the union, and a sample transmits iff exactly one stored mask holds it (claims_invariant / '
+             '_exclusive / _union) -- so "no sample in two segments" for hexagonal apertures, touching ones included, no longer rests on '
+             'qhull.  TRANSLATION IDENTITIES (syntactic or '
              'ring-normalised equalities generated = model, and Bool facts recognised in the AST; no mathematical content of their own): '
-             'gen_hex_dirs, gen_hex_ring, gen_window, gen_centres, gen_keystone, gen_structure, the circle/annulus/vane clauses of '
+             'gen_hex_dirs, gen_hex_ring, gen_window, gen_centres, gen_keystone, gen_keystone_wrap, gen_claim, gen_structure, the circle/annulus/vane clauses of '
              'prims_are_inequalities.  COMPARED ON THE REAL CODE each run: ring walks, ids under exclusion, centres, windows (exact), '
              'local_coords, hexagon masks sample for sample inside the window AND window containment on the full grid, union == amp, '
              'area bound, OPD pistons / linearity / accumulation into a non-zero out buffer with Zernike and Cartesian bases, '
              'composition against the model; keystone apertures sample for sample against an analytic polar oracle (centre disc, every '
              'sector incl. the wrap-around branches, amp = annuli minus the azimuthal-gap strips); primitives sample for sample, '
              'spider(center, rotation, rotation_is_rad), rectangle(any angle, height=None), offset_circle and polygons (3..12 sides) '
-             'against independent analytic oracles.'),
+             'against independent analytic oracles; keystone segment masks EXACTLY (same doubles, no margin, boundary and branch-cut '
+             'samples included) against the Lean model keySegment (driver op keyseg), ring rotations beyond half a turn / negative / '
+             'several turns and rings of 1-3 segments; per-sample ownership of hexagonal apertures (samples covered by 0, 1, 2+ polygons) '
+             'against the Lean model claims (driver op claim).'),
     'note': ('NOT proved: that qhull find_simplex equals hull membership (trusted; boundary samples within 1e-7*rho excluded); the '
-             'wrap-around branch of the keystone angle logic, the spider cut-outs, windows of keystones, count after exclusion, areas '
+             'spider cut-outs, windows of keystones, areas '
              '(compared / numerical bound perimeter*dx only); opd_* theorems speak about the hand model of compose_opd (tie: AST fact + '
              'driver comparison).  Segments lying entirely outside the sampled array (empty window) are out of scope.  Too few '
              'executed cases in any stream is a tool error (floors), not a pass.'),
